@@ -66,6 +66,10 @@ pub fn c02(ctx: &Ctx, rep: &mut Report) {
     rep.assumptions = sim_assumptions();
     let sh = Shape { max_streams: 4, max_wops: 8, allow_empty: true, allow_drop: true, complete: false, small_windows: true, max_sched: 400 };
     ctx.prop(rep, "integrity", ctx.tier.pick(80_000, 3_000_000), 300, || stream_workload(sh), run_c02);
+    // a second stream on the flow id of a stream that both ends finished (or one end, or nobody) while the application still holds
+    // the old handle: refused, or intact to its own end-of-stream whatever is done with the old handle (same cases as C06's
+    // stale-handle family without the Reset-ended histories, which are that property's open finding)
+    ctx.prop(rep, "integrity-id-reuse-held-handle", ctx.tier.pick(10_000, 300_000), 0, super::conn::finished_handle_case, super::conn::run_c06_stale);
     // sizes the random workloads do not reach: one write (plain or vectored in several layouts) around the u16 boundary and
     // around and above 1 MiB, followed by a small write, a shutdown, and a reader that reads to end-of-stream
     const BIG: [u32; 8] = [65_535, 65_536, 65_537, (1 << 20) - 5, 1 << 20, (1 << 20) + 1, 3 << 20, (5 << 20) + 7];
@@ -503,6 +507,8 @@ pub fn c05(ctx: &Ctx, rep: &mut Report) {
     rep.assumptions = sim_assumptions();
     let sh = Shape { max_streams: 3, max_wops: 8, allow_empty: true, allow_drop: true, complete: false, small_windows: true, max_sched: 400 };
     ctx.prop(rep, "eos", ctx.tier.pick(80_000, 3_000_000), 300, || stream_workload(sh), run_c05);
+    // end-of-stream of a stream that reuses the flow id of a finished stream whose handle is still held (see C02, C06)
+    ctx.prop(rep, "eos-id-reuse-held-handle", ctx.tier.pick(10_000, 300_000), 0, super::conn::finished_handle_case, super::conn::run_c06_stale);
     // windows far above the generated ones: W frames written into an idle reader's advertised window, then end-of-stream
     ctx.enumerate(rep, "eos-large-window", LARGE_WINDOW_CASES, 4, large_window_case, |case| {
         let mut o = run_c05(case);
